@@ -1,5 +1,4 @@
 import ZapVerif.Model.Entry
-import ZapVerif.Model.Console
 import ZapVerif.Model.Callers
 import ZapVerif.Gen.LevelColor
 /-! zap's built-in sub-encoder functions (zapcore/encoder.go, zapcore/level_strings.go, internal/color,
